@@ -22,6 +22,15 @@ import (
 	"k8s.io/apimachinery/pkg/api/resource"
 )
 
+func c10IsASCII(s string) bool {
+	for i := 0; i < len(s); i++ {
+		if s[i] >= 0x80 {
+			return false
+		}
+	}
+	return true
+}
+
 func c10HashBytes(in any) ([]byte, bool) {
 	if s, ok := in.(string); ok {
 		return []byte(s), true
@@ -77,8 +86,12 @@ func c10StepOracle(t c10Xf, in any) map[string]any {
 				o["fmt"] = fmt.Sprintf(*t.String.Fmt, in)
 			}
 		case "Convert":
-			o["upper"] = strings.ToUpper(pv)
-			o["lower"] = strings.ToLower(pv)
+			// the model computes the ASCII case mapping itself (asciiUpper/asciiLower); the library's
+			// Unicode tables are only consulted - and shipped - for text beyond ASCII
+			if !c10IsASCII(pv) {
+				o["upper"] = strings.ToUpper(pv)
+				o["lower"] = strings.ToLower(pv)
+			}
 			if raw, err := json.Marshal(in); err == nil {
 				o["json"] = string(raw)
 			} else {
